@@ -9,7 +9,7 @@ patch=$(realpath "$1"); id=$2; tier=${3:-quick}
 M=/tmp/mut
 mkdir -p $M
 if [ ! -d $M/repo ]; then git -C /repo worktree add -q --detach $M/repo HEAD || exit 2; fi
-git -C $M/repo checkout -q --detach "$(git -C /repo rev-parse HEAD)" && git -C $M/repo checkout -q -- . || exit 2
+git -C $M/repo checkout -q -- . ; git -C $M/repo clean -fdq; git -C $M/repo checkout -q --detach "$(git -C /repo rev-parse HEAD)" || exit 2
 # carry over uncommitted hook files of /repo (feature-guarded additions)
 ( cd /repo && git diff HEAD ) | git -C $M/repo apply -q 2>/dev/null
 for f in $(git -C /repo ls-files --others --exclude-standard | grep -v '^target/'); do mkdir -p "$M/repo/$(dirname $f)"; cp "/repo/$f" "$M/repo/$f"; done
